@@ -2,6 +2,8 @@
 From Coq Require Import List Arith ZArith Bool.
 Import ListNotations.
 From PF Require Import Arr Net SweepDown Accu AccuSpec.
+From PF Require Import GenLoopsEq.
+From PFG Require Import GenLoops.
 Open Scope Z_scope.
 
 (* streams.accuflux, for every network, every topological order sq, every field and nodata value:
@@ -68,3 +70,11 @@ Print Assumptions uparea_inside_is_accuflux.
 (* non-vacuity: the chain 0 -> 1 -> 2 with a field whose partial sum equals the nodata value *)
 Example accu_example : topo [1;2;2]%nat [2;1;0]%nat /\ accuflux [1;2;2]%nat [2;1;0]%nat [2;3;1] 5 = [2;5;6].
 Proof. split; [apply check_topo_sound; vm_compute; reflexivity|vm_compute; reflexivity]. Qed.
+
+(* TIE BY TRANSLATION: the loops regenerated from streams.py on every run ARE the models above *)
+Theorem gen_accuflux_eq : forall ds sq data nodata, gen_accuflux ds sq data nodata = accuflux ds sq data nodata.
+Proof. exact GenLoopsEq.gen_accuflux_eq. Qed.
+Print Assumptions gen_accuflux_eq.
+Theorem gen_accuflux_ds_eq : forall ds sq data nodata, gen_accuflux_ds ds sq data nodata = accuflux_ds ds sq data nodata.
+Proof. exact GenLoopsEq.gen_accuflux_ds_eq. Qed.
+Print Assumptions gen_accuflux_ds_eq.
